@@ -155,7 +155,7 @@ Definition pen_step (colors : Z) (only_present : bool) (pen_ : pen)
       if only_present && negb (has_attr pen_ a) then st
       else
         let idx0 := get_colour_attr pen_ a in
-        let convert := is_colour_attr a && (colors <=? idx0) in
+        let convert := is_colour_attr a && (colors <=? idx0) && (0 <=? idx0) in
         if convert then
           match convert_colour idx0 colors with
           | None => None
